@@ -80,6 +80,26 @@ def inputs(ctx):
         if k % 5 == 0:
             ins.append({"id": "ro%d" % k, "k": "option", "via": rng.choice(["vtt", "force", "reader"]), "set": s,
                         "name": rng.choice(s)["lang"]})
+    # every reader that takes lang= files the cues under exactly that tag, whatever its (well-formed)
+    # shape; force= on each of the three DFXP writers
+    shapes = ["es-419", "en-001", "de-CH-1996", "sl-rozaj", "ca-valencia", "en-x-caption", "zh-Hant-TW", "und", "fr", "pt-BR"]
+    for tag in shapes:
+        s1 = [{"lang": tag, "cues": [{"t": 1000, "e": 1400, "x": 1}, {"t": 3000, "e": 3400, "x": 2}]}]
+        for fmt in ("SRT", "WebVTT", "MicroDVD"):
+            ins.append({"id": "px%d" % n, "k": "option", "via": "reader", "reader": fmt, "set": s1, "name": tag})
+            n += 1
+    three = [{"lang": c, "cues": [{"t": 1000 * (i + 1), "e": 1000 * (i + 1) + 400, "x": 10 * (i + 1)},
+                                   {"t": 5000 + 1000 * i, "e": 5400 + 1000 * i, "x": 10 * (i + 1) + 1}]}
+             for i, c in enumerate(["en-US", "fr-FR", "es-419"])]
+    for via in ("force", "force-single", "force-legacy"):
+        for l in three:
+            ins.append({"id": "px%d" % n, "k": "option", "via": via, "set": three, "name": l["lang"]})
+            n += 1
+    # captions of different languages naming one style class
+    for base in (three, three[::-1], three[:2]):
+        for f in ("SAMI", "DFXP"):
+            ins.append({"id": "px%d" % n, "k": f, "set": base, "shared_class": True})
+            n += 1
     # language codes that are prefixes of one another, in both orders, and names that are only a
     # prefix of a code in the set: the option selects exactly the named language
     def cu(base):
@@ -140,12 +160,19 @@ def inputs(ctx):
     return ins
 
 
-def _mk(s):
+def _mk(s, shared_class=False):
     langs = []
     for l in s:
         caps = [{"s": q["t"] * 1000, "e": q["e"] * 1000, "nodes": [["t", "x%d" % q["x"]]]} for q in l["cues"]]
+        if shared_class:
+            # captions of every language name the same style class (one that says nothing about language)
+            for c in caps:
+                c["style"] = {"class": "basic"}
         langs.append({"lang": l["lang"], "caps": caps})
-    return build.caption_set({"langs": langs})
+    desc = {"langs": langs}
+    if shared_class:
+        desc["styles"] = {"basic": {"color": "white", "font-family": "Arial"}}
+    return build.caption_set(desc)
 
 
 def _x(text):
@@ -179,7 +206,7 @@ def execute(inp):
         want = [{"lang": l["lang"], "cues": [{"t": q["t"], "x": q["x"]} for q in l["cues"]]} for l in s]
         rec = {"k": "samirt" if k == "SAMI" else "dfxprt", "set": want, "body": [], "read": [], "ok": False}
         try:
-            cs = _mk(s)
+            cs = _mk(s, inp.get("shared_class", False))
             if k == "SAMI":
                 out = pycaption.SAMIWriter().write(cs)
                 doc = scan.scan_sami(out)
@@ -220,8 +247,10 @@ def execute(inp):
                         ms = (int(b[0] or 0) * 3600 + int(b[1]) * 60 + int(b[2])) * 1000 + int(b[3])
                         rec["got"].append({"t": ms, "x": _x(" ".join(c["lines"]))})
                 rec["gotlangs"] = [name]
-            elif inp["via"] == "force":
-                out = pycaption.DFXPWriter().write(cs, force=name)
+            elif inp["via"] in ("force", "force-single", "force-legacy"):
+                from pycaption.dfxp.extras import LegacyDFXPWriter, SinglePositioningDFXPWriter
+                W = {"force": pycaption.DFXPWriter, "force-single": SinglePositioningDFXPWriter, "force-legacy": LegacyDFXPWriter}[inp["via"]]
+                out = W().write(cs, force=name)
                 root, err = scan.parse_xml_strict(out)
                 d = scan.scan_dfxp(root)
                 rec["gotlangs"] = [dv["lang"] or "" for dv in d["divs"]]
@@ -230,8 +259,11 @@ def execute(inp):
             else:
                 # reader lang=: a single-language document read under the given language code
                 one = [l for l in s if l["lang"] == name]
-                srt = pycaption.SRTWriter().write(_mk(one))
-                back = pycaption.SRTReader().read(srt, lang=name)
+                fmt = inp.get("reader", "SRT")
+                doc = {"SRT": pycaption.SRTWriter, "WebVTT": pycaption.WebVTTWriter, "MicroDVD": pycaption.MicroDVDWriter,
+                       "SCC": pycaption.SCCWriter}[fmt]().write(_mk(one))
+                back = {"SRT": pycaption.SRTReader, "WebVTT": pycaption.WebVTTReader, "MicroDVD": pycaption.MicroDVDReader,
+                        "SCC": pycaption.SCCReader}[fmt]().read(doc, lang=name)
                 rec["gotlangs"] = back.get_languages()
                 rec["got"] = [{"t": int(c.start // 1000), "x": _x(c.get_text())} for c in back.get_captions(name)]
             rec["ok"] = True
